@@ -20,7 +20,7 @@ from sim.pool import (
 LATE = {"L1": "sim.pool.m_late1", "L2": "sim.pool.m_late2", "L3": "sim.pool.m_conv"}
 # L3 defines no models: it registers a converter. Calls about these classes give another result once it is imported;
 # every other call is taken to be unaffected by it (its reference is the one without L3).
-L3_SENSITIVE = {"m_edge.Stocked"}
+L3_SENSITIVE = {"m_edge.Stocked", "m_edge.Painted"}
 
 import sys as _sys
 
@@ -266,6 +266,7 @@ OBJS = {
     "house1": (lambda: s1.House(street=s1.Street(name="a", number=1), streets=[s1.Street(name="b")], owner="o"), "m_same1.House"),
     "house2": (lambda: s2.House(street=s2.Street(name="a", zip_code="z"), streets=[s2.Street(name="b", zip_code="y")], owner="o"), "m_same2.House"),
     "orderline": (lambda: me.OrderLine(line_no=1, unit_price=Decimal("3.50"), order_items=["a", "b"]), "m_edge.OrderLine"),
+    "painted": (lambda: me.Painted(shade=me.Shade.RED, shades=[me.Shade.GREEN, me.Shade.RED]), "m_edge.Painted"),
     "attrmix": (lambda: me.AttrMix(id="i", lang="en", space="preserve", qualified=4, rest={"{urn:o}x": "1", "plain": "p"}, value=7), "m_edge.AttrMix"),
 }
 # objects whose annotations resolve only with SerializerConfig.globalns: serialized with that configuration only
@@ -452,6 +453,7 @@ _x("hw_holder_settings", "m_edge.Holder", """<e:holder xmlns:e="urn:e" xmlns:xsi
 _x("hw_house1", "m_same1.House", """<h:house xmlns:h="urn:s1" owner="o"><h:street><h:name>a</h:name><h:number>1</h:number></h:street><h:side><h:name>b</h:name></h:side></h:house>""")
 _x("hw_house2", "m_same2.House", """<h:house xmlns:h="urn:s2" owner="o"><h:street zip_code="z"><h:name>a</h:name></h:street><h:side zip_code="y"><h:name>b</h:name></h:side></h:house>""")
 _x("hw_orderline", "m_edge.OrderLine", """<OrderLine line_no="1"><unit_price>3.50</unit_price><order_items>a</order_items></OrderLine>""")
+_x("hw_painted", "m_edge.Painted", """<e:painted xmlns:e="urn:e" shade="RED"><e:tint>green</e:tint><e:tint>Green</e:tint></e:painted>""")
 _x("hw_attrmix", "m_edge.AttrMix", """<e:attrMix xmlns:e="urn:e" xmlns:o="urn:o" id="i" xml:lang="en" xml:space="preserve" e:qualified="4" o:x="1" plain="p"> 7 </e:attrMix>""")
 _x("hw_item_constructs", "m_basic.Item", """<?xml version="1.0"?><!DOCTYPE item [<!ENTITY nm "entity name">]><?pi before?><!-- c --><item xmlns="urn:basic" id="&#49;" xml:lang="en"><?pi inside?><name>&nm; <![CDATA[<cdata>]]> &amp;<!-- in text --> end</name><qty><![CDATA[2]]></qty></item><!-- after --><?pi after?>""")
 _x("hw_item_leapday", "m_basic.Item", """<item xmlns="urn:basic" id="1"><name>leap</name><when>2024-02-29</when><stamp>2024-02-29T10:00:00Z</stamp><at>23:59:59.999</at><took>P1Y2M3DT4H5M6.5S</took></item>""")
@@ -537,6 +539,7 @@ JSON = {
     "js_stocked": ('{"sku": "AB-1", "alt": null, "qty": 3}', "m_edge.Stocked", None),
     "js_house1": ('{"street": {"name": "a", "number": 1}, "side": [], "owner": null}', "m_same1.House", None),
     "js_house2": ('{"street": {"name": "a", "zip_code": "z"}, "side": [{"name": "b", "zip_code": null}], "owner": null}', "m_same2.House", None),
+    "js_painted": ('{"shade": "Red", "tint": ["green", "GREEN"]}', "m_edge.Painted", None),
     "js_attrmix": ('{"id": "i", "lang": "en", "space": null, "qualified": 4, "rest": {"{urn:o}x": "1", "plain": "p"}, "value": 7}', "m_edge.AttrMix", None),
     "js_noclass_thing_w": ('{"w": 5}', None, None),
     "js_noclass_thing_v": ('{"v": "only the local type has this"}', None, None),
